@@ -151,8 +151,15 @@ struct Ser<T, std::enable_if_t<std::is_floating_point<T>::value>>
   }
   static void get(std::istream &is, T &v)
   {
+    // read one numeric token; must stop before a closing ')' ']' '}' that follows without a space
     std::string tok;
-    is >> tok;
+    is >> std::ws;
+    for (;;) {
+      int c = is.peek();
+      if (c == EOF || !(isalnum(c) || c == '.' || c == '+' || c == '-'))
+        break;
+      tok.push_back((char)is.get());
+    }
     if (tok.empty())
       throw ParseError("float");
     v = (T)strtod(tok.c_str(), nullptr);
@@ -914,6 +921,24 @@ inline rc::Gen<Op> genOp(int kinds, long long amax = 7, long long bmax = 7, long
 {
   return rc::gen::map(rc::gen::tuple(range<int>(0, kinds - 1), range<long long>(0, amax), range<long long>(0, bmax),
                           range<long long>(0, cmax)),
+      [](const std::tuple<int, long long, long long, long long> &t) {
+        Op o;
+        o.k = std::get<0>(t);
+        o.a = std::get<1>(t);
+        o.b = std::get<2>(t);
+        o.c = std::get<3>(t);
+        return o;
+      });
+}
+// like genOp but with a weight per kind: {{weight, kind}, ...}
+inline rc::Gen<Op> genOpWeighted(std::vector<std::pair<int, int>> weightKind, long long amax = 7, long long bmax = 7, long long cmax = 7)
+{
+  std::vector<int> table;
+  for (auto &wk : weightKind)
+    for (int i = 0; i < wk.first; ++i)
+      table.push_back(wk.second);
+  auto kindGen = rc::gen::map(range<int>(0, (int)table.size() - 1), [table](int i) { return table[(size_t)i]; });
+  return rc::gen::map(rc::gen::tuple(kindGen, range<long long>(0, amax), range<long long>(0, bmax), range<long long>(0, cmax)),
       [](const std::tuple<int, long long, long long, long long> &t) {
         Op o;
         o.k = std::get<0>(t);
